@@ -104,12 +104,12 @@ def run_contract(ctx, n, with_model=True):
                 if "g" not in out or not any(out["g"] == common.enc_val(v) for v in pop):
                     ctx.violation(f"result {json.dumps(out)[:80]} is not an element of the population ({name})",
                                   {"pop": repr(pop)[:300], "h": h, "kw": repr(kw)[:300], "impl": out})
-            elif out != {"e": expect}:
+            elif not common.same_outcome(out, {"e": expect}):
                 ctx.violation(f"malformed arguments ({name}) give {json.dumps(out)[:80]}, documented error is {expect}",
                               {"pop": repr(pop)[:300], "h": h, "kw": repr(kw)[:300], "impl": out})
             if ans is not None:
                 mo = choicelib.model_to_outcome(ans, list(pop))
-                if mo != out:
+                if not common.same_outcome(mo, out):
                     ctx.tie_break("choice", {"pop": repr(pop)[:200], "h": h, "kw": repr(kw)[:200], "impl": out, "model": mo})
     for key, r in results.items():
         if "weights" in r and "cum" in r and r["weights"] != r["cum"]:
@@ -179,7 +179,7 @@ def run_random_branch(ctx, n, with_model=True):
             out = common.outcome_of(lambda: binning.deterministic_choice(None, pop, **kw))
             ctx.case(("rand-bad", name, repr(kw)), True)
             ctx.count("variant:random-malformed")
-            if out != {"e": expect}:
+            if not common.same_outcome(out, {"e": expect}):
                 ctx.violation(f"no id, malformed arguments ({name}) give {json.dumps(out)[:80]}, documented error is {expect}",
                               {"pop": repr(pop), "kw": repr(kw)[:300], "impl": out})
     # unpatched draws: membership and never zero weight
